@@ -292,6 +292,7 @@ fn base_cx() -> Cx {
         ("Result::Err", "RResult.Err"),
         ("Clone::clone", "id"),
         ("NoCtx", "()"),
+        ("ExitCode::from", "ExitCode.ofStatus"),
         ("empty_str", "([] : Name)"),
     ] {
         cx.paths.insert(r.into(), l.into());
